@@ -422,3 +422,9 @@ pub const USER_STACK: usize = 8 << 20;
 pub fn on_user_stack<R: Send>(f: impl FnOnce() -> R + Send) -> R {
     std::thread::scope(|s| std::thread::Builder::new().stack_size(USER_STACK).spawn_scoped(s, f).expect("spawn").join().expect("scale-case thread panicked"))
 }
+
+/// a fresh thread (fresh thread-local manager for the SMT-LIB-named wrappers) with the stack a user's
+/// main thread has, instead of the 2 MiB default of spawned threads
+pub fn spawn_user_thread<R: Send + 'static>(f: impl FnOnce() -> R + Send + 'static) -> std::thread::JoinHandle<R> {
+    std::thread::Builder::new().stack_size(USER_STACK).spawn(f).expect("spawn")
+}
